@@ -1,7 +1,7 @@
 (* Independent statement of C04 over the code model, as boolean deciders applied to
    the OBSERVED output (reverse-call map + DOT text) of a query. *)
 From Coq Require Import String List Bool Arith.
-From Coca Require Import Lib.Sx Lib.GoMap Lib.Dot Model.CodeModel.
+From Coca Require Import Lib.Sx Lib.GoMap Lib.Dot Lib.Reach Model.CodeModel.
 Import ListNotations.
 Open Scope list_scope.
 Open Scope string_scope.
@@ -35,21 +35,11 @@ Definition map_exact_b (m : list ds) (obs : gomap (list string)) : bool :=
   forallb (fun k => same_multiset (mget_d [] obs k) (spec_callers m k))
           (mkeys obs ++ declared_methods m)%list.
 
-(* reverse reachability: methods on a caller chain ending at target *)
-Fixpoint rreach_set (fuel : nat) (m : list ds) (frontier seen : list string) : list string :=
-  match fuel with
-  | 0 => seen
-  | S f =>
-    let next := filter (fun x => negb (str_mem x seen))
-                       (flat_map (spec_callers m) frontier) in
-    match next with
-    | [] => seen
-    | _ => rreach_set f m next (seen ++ next)%list
-    end
-  end.
-
+(* reverse reachability: methods on a caller chain ending at target.  The bound
+   (16 + number of declared methods) exceeds every simple path, so this is plain
+   reachability; it is written with a bound so that completeness needs no counting. *)
 Definition rreach (m : list ds) (target : string) : list string :=
-  rreach_set (S (List.length (declared_methods m))) m [target] [target].
+  reach_within (spec_callers m) (16 + List.length (declared_methods m)) target.
 
 (* clause 2: well-formed DOT whose edges come from the map and lie on a chain to target *)
 Definition edges_sound_b (m : list ds) (target : string) (edges : list (string * string)) : bool :=
